@@ -218,7 +218,12 @@ impl RawAutomaton {
             transitions: Vec::from_iter([(0..alphabet_size)
                 .map(|b| ((b as u8).into(), 0))
                 .collect::<Vec<_>>()]),
-            markers: FxHashSet::default(),
+            // All the transitions above carry the marker 0.
+            markers: if alphabet_size > 0 {
+                FxHashSet::from_iter([0])
+            } else {
+                FxHashSet::default()
+            },
         }
     }
 
